@@ -13,6 +13,8 @@ import (
 	"time"
 
 	"github.com/foxglove/mcap/go/mcap"
+	"github.com/klauspost/compress/zstd"
+	"github.com/pierrec/lz4/v4"
 	"pgregory.net/rapid"
 	"verifharness/isolate"
 	"verifharness/mc"
@@ -845,4 +847,87 @@ func checkC10Sweep(c C10Sweep, st *stats.Collector) error {
 
 func TestC10Sweep(t *testing.T) {
 	pk.RunEnum(t, "C10s", enumC10Sweep, checkC10Sweep)
+}
+
+// ---- decompression bombs under configured limits: a chunk whose compressed data decodes to far more
+// than the chunk declares. With MaxDecompressedChunkSize set (and validation on, the mode that enforces
+// it) the lexer may not buffer what the frame produces beyond the declared, limit-checked size.
+type C10Bomb struct {
+	Codec    string // lz4 | zstd
+	Declared uint64 // the chunk's uncompressed_size field
+	Real     int    // bytes the frame really decodes to (zeros)
+	Opts     uint32
+}
+
+func bombFile(c C10Bomb) ([]byte, error) {
+	var payload []byte
+	zeros := make([]byte, c.Real)
+	switch c.Codec {
+	case "lz4":
+		var out bytes.Buffer
+		w := lz4.NewWriter(&out)
+		if _, err := w.Write(zeros); err != nil {
+			return nil, err
+		}
+		if err := w.Close(); err != nil {
+			return nil, err
+		}
+		payload = out.Bytes()
+	default:
+		e, err := zstd.NewWriter(nil)
+		if err != nil {
+			return nil, err
+		}
+		payload = e.EncodeAll(zeros, nil)
+		e.Close()
+	}
+	b := &specenc.Builder{}
+	b.Magic()
+	b.Header("", "bomb")
+	b.Chunk(specenc.ChunkHdr{UncompressedSize: c.Declared, Compression: c.Codec, CRC: 0x12345678}, payload)
+	b.DataEnd(0)
+	b.Footer(0, 0, 0)
+	b.Magic()
+	return b.Buf, nil
+}
+
+func enumC10Bombs(yield func(C10Bomb) bool) {
+	sh, n := shardInfo()
+	i := 0
+	for _, codec := range []string{"lz4", "zstd"} {
+		for _, declared := range []uint64{16, 1000} {
+			for _, opts := range []uint32{loValidate | loLimit1K, loValidate | loLimit1M, loValidate | loLimit1K | loEmitInvalid | loNoCallback} {
+				if i%n == sh {
+					if !yield(C10Bomb{Codec: codec, Declared: declared, Real: 64 << 20, Opts: opts}) {
+						return
+					}
+				}
+				i++
+			}
+		}
+	}
+}
+
+func checkC10Bomb(c C10Bomb, st *stats.Collector) error {
+	input, err := bombFile(c)
+	if err != nil {
+		return pk.Failf("harness", "cannot build the bomb: %v", err)
+	}
+	o := worker().Call(isolate.Req{Entry: entryLexer, Opts: c.Opts, Input: input}, 60*time.Second, 900*time.Second)
+	rec, chunk := limitsOf(c.Opts)
+	// what the codec itself may need for one block/window of this frame, plus the configured limits
+	ceiling := 4*(uint64(rec)+2*uint64(chunk)) + 1<<20 + 64*uint64(len(input)) + 24<<20
+	label := fmt.Sprintf("lexer(opts=%08b, MaxDecompressedChunkSize=%d) on a %d-byte file whose %s chunk declares %d uncompressed bytes and decodes to %d", c.Opts, chunk, len(input), c.Codec, c.Declared, c.Real)
+	if err := judgeHostile("C10", label, o, ceiling); err != nil {
+		return err
+	}
+	st.Case(wl.Hash(c), true, 1, "bomb:"+c.Codec)
+	if st.WantSample() {
+		st.Sample(map[string]any{"bomb": c, "input_len": len(input), "result": o.Text, "alloc": o.Alloc, "ceiling": ceiling})
+	}
+	return nil
+}
+
+func TestC10Bombs(t *testing.T) {
+	pk.RunEnum(t, "C10b", enumC10Bombs, checkC10Bomb)
 }
